@@ -39,6 +39,8 @@ TC = 'def oth { splitters: uid return "TC" weighted 1 // e\n }'
 BAD_PY = 'def class { splitters: uid return "P" weighted 1 }'
 BAD_KW = 'def exp { splitters: kwargs, uid return "P" weighted 1 }'
 BAD_SYN = 'def exp { splitters: uid return "S" weighted }'
+W1 = 'def w1 { splitters: uid return "p" weighted 1, "q" weighted 1, "r" weighted 1 }'
+W2 = 'def w2 { splitters: uid return "only" weighted 9 }'
 BAD = {"BAD_PY": BAD_PY, "BAD_KW": BAD_KW, "BAD_SYN": BAD_SYN}
 def _nested(tag, d):
     c = f'return "{tag}" weighted 1'
@@ -212,6 +214,22 @@ def harness(name):
             return [t0, t1], ctx
 
         return make
+    if name == "H5w":
+        # evaluation only, two evaluators with DIFFERENT weight vectors (and group counts) evaluated at the same time: nothing
+        # that one call computes (running totals, scratch buffers) may be visible to the other
+        def make():
+            evs = [impl.ExperimentEvaluator(W1), impl.ExperimentEvaluator(W2)]
+            ctx = {"results": {}, "kind": "H5w"}
+
+            def body(j):
+                def run(ex, tid):
+                    ctx["results"][tid] = [norm(impl.call(evs[j], {"uid": u})) for u in (1, "x")]
+
+                return run
+
+            return [body(0), body(1)], ctx
+
+        return make
     if name == "H4t":
         # H4 on tiny texts (used when exploration escalates to line points inside SLY)
         def make():
@@ -261,6 +279,17 @@ def check(ex, ctx):
             bad = not isinstance(got, list) or any(oracle.agree(g, w) for g, w in zip(got, want))
             if bad:
                 return {"kind": "sched:H6", "why": f"thread {tid} constructing {text[:60]!r} after many other sources were compiled: results {short(repr(got), 200)}"}
+        return None
+    if ctx["kind"] == "H5w":
+        from .. import oracle
+        from ..ref import parse as rp
+
+        for tid, text in enumerate((W1, W2)):
+            a = rp.parse(text)
+            got = ctx["results"].get(tid)
+            want = [oracle.expected(a, {"uid": u}) for u in (1, "x")]
+            if not isinstance(got, list) or any(oracle.agree(g, w) for g, w in zip(got, want)):
+                return {"kind": "sched:H5w", "why": f"thread {tid} evaluating {text[:50]!r} while another thread evaluates an experiment with other weights: {short(repr(got), 200)}"}
         return None
     if ctx["kind"] == "H1":
         for tid, k in enumerate(ctx["keys"]):
@@ -322,13 +351,13 @@ PLAN = {
               # every single preemption between two BYTECODES of the evaluator / wrapper / binning modules (two stores written on one line)
               ("H7a", "attr", "core", 99, None), ("H7b", "attr", "core", 99, None), ("H7c", "attr", "core", 99, None), ("H7a", "line", "core", 1, None),
               # two deeply nested sources (deeper than anything compiled before) at every line of the code generator and of the models
-              ("H1n", "line2", "gen", 1, None), ("H1n", "line2", "models", 1, None),
+              ("H1n", "line2", "gen", 1, None), ("H1n", "line2", "models", 1, None), ("H5w", "line", "core", 2, None), ("H5w", "instr", "core", 1, None),
               ("H2", "instr", "core", 1, None), ("H3", "instr", "core", 1, None), ("H4", "instr", "core", 1, None), ("H5", "instr", "core", 1, None)],
     "thorough": [("H2", "attr", "core", 99, None), ("H3", "attr", "core", 99, None), ("H4", "attr", "core", 99, None),
                  ("H12", "line", "core", 2, None), ("H13", "line", "core", 2, None), ("H2", "line", "core", 3, None), ("H3", "line", "core", 3, None),
                  ("H4", "line", "core", 2, None), ("H5", "line", "core", 3, None), ("H2", "instr", "core", 2, None), ("H3", "instr", "core", 2, None),
                  ("H5", "instr", "core", 2, None), ("H12", "instr", "core", 1, None), ("H4", "instr", "core", 2, None), ("H7a", "attr", "core", 99, None), ("H7b", "attr", "core", 99, None), ("H7c", "attr", "core", 99, None),
-                 ("H7a", "line", "core", 2, None), ("H7b", "line", "core", 2, None), ("H1n", "line", "gen", 1, None), ("H1n", "line", "models", 1, None), ("H1n", "call", "deep", 2, None),
+                 ("H7a", "line", "core", 2, None), ("H7b", "line", "core", 2, None), ("H1n", "line", "gen", 1, None), ("H1n", "line", "models", 1, None), ("H1n", "call", "deep", 2, None), ("H5w", "line", "core", 3, None), ("H5w", "instr", "core", 2, None),
                  ("H6_16", "line", "core", 2, None), ("H6_32", "line", "core", 1, None), ("H6_64", "line", "core", 2, None), ("H6_100", "line", "core", 1, None),
                  ("H6_128", "line", "core", 2, None), ("H6_256", "line", "core", 1, None), ("H6_512", "line", "core", 1, None), ("H6_1024", "line", "core", 1, None),
                  ("H1t", "call", "deep", 2, None), ("H4t", "call", "deep", 2, None), ("H12", "call", "deep", 1, None), ("H1t", "line", "deep", 1, None)],
